@@ -45,6 +45,7 @@ def run(ctx):
             o["PhaseSpaceShiftX"] = round(r.uniform(-2, 2), 2)
             o["PhaseSpaceShiftY"] = round(r.uniform(-2, 2), 2)
         out = dict(i=i, opts=o, fpclass=fpclass, viol=[], steps=0)
+        prog.sprinkle(core.Rng("c01nuisance", ctx.seed, i), o, wd=d)
         res = prog.run_inovesa("rel", o, d, os.path.join(d, "xdg"), timeout=900)
         out["cmd"] = " ".join(res["argv"])
         if prog.program_outcome_key(res) or res["rc"] != 0:
